@@ -142,6 +142,7 @@ def solver_requests(ctx):
         if solver == "pantr" and not prob.hess:
             params += ["dir.finite_diff=true"]
         y0 = rng.vec(prob.m, 1.0); S0 = [rng.choice([0.5, 1.0, 4.0, 10.0]) for _ in range(prob.m)]
+        if rng.random() < 0.25: prob.prov = rng.choice([0x80, 0x20, 0x40, 0x10, 0xa0, 0xfe, 0x0e, rng.randrange(0, 256) & 0xfe])   # provider mix (supplied members poison the work buffers)
         reqs.append((scenario, crit, budget, sl.Request(prob, x0, y0, S0, solver, direction, "inner", params,
                                                        always=rng.random() < 0.7, tol=tol, **kw)))
     # FISTA in fixed-step mode (L_min == L_max) with general constraints and every criterion: psi(x_hat) / y_hat are evaluated on a different path there
